@@ -197,10 +197,14 @@ def nx23(F, R):
             if fct[0] == "cmp":
                 l, r = strip_load(fct[2]), strip_load(fct[3])
                 is_pos = lambda x: x[0] == "field" and x[2] == "Sodg::next_v"
-                if fct[1] == "<" and is_pos(l) and strip_sites(r) == strip_sites(val):
+                # `pos < id + 1` skips the update only when it changes nothing or would move the position back; `pos <= id + 1`
+                # differs from it only where pos == id + 1, and there the update writes the value already held
+                if fct[1] in ("<", "<=") and is_pos(l) and strip_sites(r) == strip_sites(val):
                     continue
                 if fct[1] == "<=" and is_pos(l) and strip_sites(r) == strip_sites(rid):
                     continue
+            if w.body.asserted(fct, w.site):
+                continue
             badg.append(show(fct, b))
         if badg:
             R.bad("NX3", "NX3/Sodg::next_id/position-update-conditional", w.where(),
